@@ -206,6 +206,9 @@ def main(argv=None):
     if args.replay:
         import json
         d = json.load(open(args.replay))['replay']
+        if d.get('kind') == 'points':
+            from checks import c09_points
+            ok, detail = c09_points.replay((d['case'][0], tuple(d['case'][1]) if isinstance(d['case'][1], list) else d['case'][1]), None); print('REPRODUCED' if ok else 'not reproduced', detail); return 1 if ok else 0
         S = SAMPLES[d['sample']]
         if d.get('coefficients'): ok, detail = replay(S, {k: numpy.array(v) for k, v in d['coefficients'].items()})
         else:
@@ -254,6 +257,19 @@ def main(argv=None):
         for what, rp in res['viol']: run.violation(f'sample:{res["key"]}:{rp["kind"]}', what, rp)
         for u in res['unconfirmed']: run.unconfirmed(res['key'], u)
         if res['nontrivial']: run.sample(dict(sample=res['key'], queries=res['q']), limit=10)
+    # point-set algebra: tensor / transformed / concatenated rules keep every weight next to the coordinate row it belongs to (symbolic coordinates and weights)
+    if not args.only or args.only == 'points':
+        from checks import c09_points
+        for c in c09_points.cases(args.tier):
+            o = c09_points.run_case(c)
+            run.case(o['label'], o['unsat'] > 0); run.queries['exact_unsat'] += o['unsat']; run.queries['unknown'] += o['unknown']; run.queries['sat'] += len(o['sat'])
+            if o['errors'] or o['unknown']: run.unconfirmed(o['label'], f'{o["errors"][:1]} unknown={o["unknown"]}')
+            if o['unsat']: run.sample(dict(obligation=o['label'], proved=o['unsat']), limit=24)
+            for cex in o['sat']:
+                ok, detail = c09_points.replay(c, cex)
+                if ok: run.violation('points:' + o['label'], f'{o["label"]}: {cex["detail"]}: {detail}'[:500], dict(kind='points', case=[c[0], list(c[1]) if isinstance(c[1], tuple) else c[1]])); break
+                else: run.unconfirmed(o['label'], f'{cex["detail"]}: not reproduced ({detail})')
+        run.stubs.append('nutils.points.numpy -> symx.npproxy, nutils.points.types.frozenarray -> identity (point-set algebra on symbolic coordinates/weights); part rules are stub Points subclasses with symbolic data')
     return run.finish(dict(programs=run.cases, disagreements_checked=run.queries['sat'] + len(run.violations)))
 
 if __name__ == '__main__':
